@@ -229,6 +229,7 @@ func (c *Chain) beginBlock() {
 	}()
 	c.LastBegin = abci.ResponseBeginBlock{}
 	c.LastBegin = c.App.BeginBlock(abci.RequestBeginBlock{Header: c.Header})
+	DetRecord("begin", c.LastBegin.Events)
 }
 
 // EndBlock runs EndBlock and reports a panic instead of hiding it.
@@ -240,6 +241,7 @@ func (c *Chain) EndBlock() (panicked string) {
 		}
 	}()
 	c.LastEnd = c.App.EndBlock(abci.RequestEndBlock{Height: c.Header.Height})
+	DetRecord("end", c.LastEnd.Events)
 	return ""
 }
 
@@ -249,6 +251,7 @@ func (c *Chain) Commit() { c.CommitAdvance(BlockSeconds * time.Second) }
 func (c *Chain) CommitAdvance(d time.Duration) {
 	c.EndBlock()
 	c.App.Commit()
+	DetRecord(fmt.Sprintf("commit|%x", c.App.LastCommitID().Hash), nil)
 	c.LastHdr = c.signedHeader(c.ChainID, c.Header.Height, c.Header.Time, c.Header.AppHash, c.Vals, c.Vals, c.Signers)
 	c.Hdrs[c.Header.Height] = c.LastHdr
 	c.Now = c.Now.Add(d)
@@ -372,6 +375,7 @@ func (c *Chain) deliverRaw(bz []byte) (out TxResult) {
 		}
 	}()
 	res := c.App.BaseApp.DeliverTx(abci.RequestDeliverTx{Tx: bz})
+	DetRecord(fmt.Sprintf("tx|%d|%s|%x|%d|%d", res.Code, res.Codespace, res.Data, res.GasWanted, res.GasUsed), res.Events)
 	return TxResult{Code: res.Code, Codespace: res.Codespace, Log: res.Log, Data: res.Data, GasUsed: res.GasUsed, Events: res.Events}
 }
 
